@@ -70,6 +70,9 @@ pub fn poll_ack(ack: &Arc<CommandAcknowledgement>) -> Option<i128> {
 struct Cfg {
     max: i64, counters: u64, cap: usize, shards: usize, queue: usize, pool: usize, buffer: usize,
     hash: u8, wcalc: u8, t0: u64, seeds: [u64; 4], clients: usize,
+    /// which schedule points stop a thread in point-stepping mode: "window" (the two windows of Window.v and the end of the
+    /// shutdown drain) or "micro" (every point of Micro.v as well)
+    points: String,
 }
 
 fn parse_kv(parts: &[&str]) -> HashMap<String, String> {
@@ -87,6 +90,7 @@ fn parse_cfg(parts: &[&str]) -> Cfg {
         buffer: g("buffer", "2").parse().unwrap(), hash: g("hash", "0").parse().unwrap(),
         wcalc: g("wcalc", "0").parse().unwrap(), t0: g("t0", "1000000000000").parse().unwrap(),
         seeds: [seeds[0], seeds[1], seeds[2], seeds[3]], clients: g("clients", "3").parse().unwrap(),
+        points: g("points", "window"),
     }
 }
 
@@ -296,6 +300,7 @@ struct Case {
     guards_held: usize,
     stepping_clients: Vec<usize>,
     worker_at_point: bool,
+    client_job: Vec<String>,
 }
 
 impl Case {
@@ -326,8 +331,23 @@ impl Case {
             }
         }
         let consumed = vec![0; cfg.clients];
+        let ncl = cfg.clients;
         let _ = ctl.take_oracle();
-        Case { name: name.to_string(), cfg, ctl, cache, clock, clients, acks: Vec::new(), consumed, index: 0, guards_held: 0, stepping_clients: Vec::new(), worker_at_point: false }
+        Case { name: name.to_string(), cfg, ctl, cache, clock, clients, acks: Vec::new(), consumed, index: 0, guards_held: 0, stepping_clients: Vec::new(), worker_at_point: false, client_job: vec![String::new(); ncl] }
+    }
+
+    /// does a thread in point-stepping mode stop at this schedule point (in this case's mode, for this job)?
+    fn interesting(&self, label: &str, job: &str) -> bool {
+        let window = matches!(label, "upsert.after_store_update" | "worker.put_ttl.after_store_insert" | "worker.drain.end");
+        if window { return true; }
+        if self.cfg.points != "micro" { return false; }
+        match label {
+            "call.entered" | "put.checked" | "delete.marked" | "read.hit" => true,
+            "send.enter" => matches!(job, "put" | "put_w" | "put_ttl" | "put_w_ttl"),
+            "worker.delete.after_store" | "worker.delete.after_weight" => true,
+            l if l.starts_with("shutdown.") => true,
+            _ => false,
+        }
     }
 
     fn collect_client(&mut self, tid: usize) -> J {
@@ -337,6 +357,12 @@ impl Case {
             let deadline = std::time::Instant::now() + STEP_TIMEOUT;
             while std::time::Instant::now() < deadline {
                 if let Some(label) = self.ctl.at_point(Role::Client(tid)) {
+                    if !self.interesting(label, &self.client_job[tid]) {
+                        self.ctl.step_point(Role::Client(tid));
+                        let d2 = std::time::Instant::now() + Duration::from_millis(200);
+                        while self.ctl.at_point(Role::Client(tid)) == Some(label) && std::time::Instant::now() < d2 { thread::sleep(Duration::from_micros(20)); }
+                        continue;
+                    }
                     return J::A(vec![J::I(7), J::S(label.to_string())]);
                 }
                 if self.ctl.client_state(tid) != ClientState::Running { break; }
@@ -383,7 +409,7 @@ impl Case {
         let mut drain_grace = false;
         loop {
             if let Some(label) = self.ctl.at_point(Role::Worker) {
-                if label.starts_with("ack.") { self.ctl.step_point(Role::Worker); thread::sleep(Duration::from_micros(20)); continue; }
+                if label.starts_with("ack.") || !self.interesting(label, "") { self.ctl.step_point(Role::Worker); thread::sleep(Duration::from_micros(20)); continue; }
                 self.worker_at_point = true;
                 return J::A(vec![J::I(7), J::S(label.to_string())]);
             }
@@ -468,6 +494,7 @@ impl Case {
                 } else {
                     self.ctl.set_stepping(Role::Client(tid), true);
                     self.stepping_clients.push(tid);
+                    self.client_job[tid] = parts[2].to_string();
                     self.ctl.set_client_state(tid, ClientState::Running);
                     self.clients[tid].tx.send(Some(Job::Call(build_job(&parts[2..])))).unwrap();
                     ret = self.collect_client(tid);
